@@ -171,6 +171,8 @@ func checkC01(c *Ctx) {
 	})
 
 	checkC01Random(c)
+	checkC01Sweep(c)
+	checkC01Awkward(c)
 
 	c.Set("exhaustive", true)
 	c.Set("bounds", map[string]any{"MaxDepth": maxDepth})
